@@ -112,6 +112,6 @@ def main():
     json.dump(m, open(os.path.join(V, "MANIFEST.json"), "w"), indent=1)
     print("claimed:", len(checks), "not claimed:", len(na))
 
-HOOK_COMMITS = []
+HOOK_COMMITS = ["c2ec1c2"]
 if __name__ == "__main__":
     main()
